@@ -72,3 +72,150 @@ MUTANTS += [
     dict(id="c09-revert-total-seconds", prop="C09", file="eqsig/im.py",
          old="    total_seconds = (asig.npts - 1) // points_per_sec", new="    total_seconds = int(asig.time[-1])", why="reverts fix C09-F2"),
 ]
+
+# ---- wave 2: refreshed / audit survivors / size-window mutants (arbitrary thresholds; DESIGN 8.5) ----------------------------
+_ARIAS_OLD = "    return np.pi / (2 * 9.81) * cumulative_trapezoid(np.asarray(acc, dtype=float) ** 2, dx=dt, initial=0)"
+_CAV_OLD = "    abs_acc = np.abs(acc_sig.values)\n    return cumulative_trapezoid(abs_acc, dx=acc_sig.dt, initial=0)"
+_ISV_OLD = "    return cumulative_trapezoid(acc_sig.velocity ** 2, dx=acc_sig.dt, initial=0)"
+_ABSACC_OLD = "    acc_int = np.cumsum(abs_acc * asig.dt)\n"
+_ABSVEL_OLD = "    vel_int = np.cumsum(abs_vel * asig.dt)\n"
+_UKE_OLD = ("    kin_energy = 0.5 * acc_signal.velocity * np.abs(acc_signal.velocity)\n"
+            "    delta_energy = np.diff(kin_energy)\n"
+            "    delta_energy = np.insert(delta_energy, 0, kin_energy[0])\n"
+            "    cum_delta_energy = np.cumsum(abs(delta_energy))\n"
+            "    return cum_delta_energy\n")
+
+MUTANTS = [m for m in MUTANTS if m["id"] != "c09-arias-g"]   # its `old` text predates repo commit b611071: refreshed below
+MUTANTS += [
+    dict(id="c09-arias-g", prop="C09", file="eqsig/im.py", old=_ARIAS_OLD,
+         new=_ARIAS_OLD.replace("9.81", "9.8"),
+         why="Arias constant uses g = 9.8 (0.1 % off) [refreshed]"),
+    # -- audit C09 section 5 (confirmed survivors of the previous module)
+    dict(id="c09-a1-arias-blocked-seam", prop="C09", file="eqsig/im.py", old=_ARIAS_OLD,
+         new="    acc2 = np.asarray(acc, dtype=float) ** 2\n"
+             "    if acc2.ndim == 1 and 8192 < len(acc2) <= 49152:\n"
+             "        out = np.zeros(len(acc2))\n"
+             "        base = 0.0\n"
+             "        for i0 in range(0, len(acc2), 8192):\n"
+             "            out[i0:i0 + 8192] = cumulative_trapezoid(acc2[i0:i0 + 8192], dx=dt, initial=0) + base\n"
+             "            base = out[min(i0 + 8192, len(acc2)) - 1]\n"
+             "        return np.pi / (2 * 9.81) * out\n"
+             "    return np.pi / (2 * 9.81) * cumulative_trapezoid(acc2, dx=dt, initial=0)",
+         why="audit 5.1: block-wise Arias for 8192 < n <= 49152 loses the panel across each block seam"),
+    dict(id="c09-a4-cav-float32-window", prop="C09", file="eqsig/im.py", old=_CAV_OLD,
+         new="    abs_acc = np.abs(acc_sig.values)\n"
+             "    if 150000 < len(abs_acc) <= 2 ** 20:\n"
+             "        abs_acc = abs_acc.astype(np.float32)\n"
+             "    return cumulative_trapezoid(abs_acc, dx=acc_sig.dt, initial=0)",
+         why="audit 5.4: CAV in single precision for 150000 < n <= 2^20 (relative error ~1e-6)"),
+    dict(id="c09-a5-cavdp-rate-cap", prop="C09", file="eqsig/im.py",
+         old="    points_per_sec = int(round(1 / asig.dt))\n",
+         new="    points_per_sec = int(round(1 / asig.dt))\n    if points_per_sec > 1000:\n        points_per_sec = 1000\n",
+         why="audit 5.5: sampling rates above 1 kHz treated as 1 kHz (windows too short, part of the record ignored)"),
+    # -- window mutants
+    dict(id="c09-w-isv-seam-5000", prop="C09", file="eqsig/im.py", old=_ISV_OLD,
+         new="    v2 = acc_sig.velocity ** 2\n"
+             "    if len(v2) <= 5000:\n"
+             "        return cumulative_trapezoid(v2, dx=acc_sig.dt, initial=0)\n"
+             "    out = np.zeros(len(v2))\n"
+             "    blk = 1777\n"
+             "    carry = 0.0\n"
+             "    for b, i0 in enumerate(range(0, len(v2), blk)):\n"
+             "        out[i0:i0 + blk] = cumulative_trapezoid(v2[i0:i0 + blk], dx=acc_sig.dt, initial=0) + carry\n"
+             "        carry = out[min(i0 + blk, len(v2)) - 1]\n"
+             "        if b == 0 and i0 + blk < len(v2):\n"
+             "            carry += 0.5 * acc_sig.dt * (v2[i0 + blk - 1] + v2[i0 + blk])\n"
+             "    return out",
+         why="window n > 5000: blocked ISV (1777 samples) whose seam panel is carried only across the first seam (wrong from the third block on)"),
+    dict(id="c09-w-cav-f32-20000", prop="C09", file="eqsig/im.py", old=_CAV_OLD,
+         new="    abs_acc = np.abs(acc_sig.values)\n"
+             "    if len(abs_acc) > int('20000'):\n"
+             "        pan = (0.5 * acc_sig.dt * (abs_acc[1:] + abs_acc[:-1])).astype(np.float32)\n"
+             "        return np.concatenate([[0.0], np.cumsum(pan, dtype=np.float32)]).astype(float)\n"
+             "    return cumulative_trapezoid(abs_acc, dx=acc_sig.dt, initial=0)",
+         why="window n > 20000: memory-saving CAV accumulated in float32"),
+    dict(id="c09-w-absacc-droptail-70000", prop="C09", file="eqsig/im.py", old=_ABSACC_OLD,
+         new="    terms = abs_acc * asig.dt\n"
+             "    if len(terms) <= int('70000'):\n"
+             "        acc_int = np.cumsum(terms)\n"
+             "    else:\n"
+             "        blk = 16384\n"
+             "        nb = len(terms) // blk\n"
+             "        body = np.cumsum(terms[:nb * blk].reshape(nb, blk), axis=1)\n"
+             "        carry = np.concatenate([[0.0], np.cumsum(body[:-1, -1])])\n"
+             "        body = body + carry[:, None]\n"
+             "        acc_int = np.concatenate([body.ravel(), np.full(len(terms) - nb * blk, body[-1, -1])])\n",
+         why="window n > 70000: blocked running sum (16384) that drops the last partial block (held constant)"),
+    dict(id="c09-w-absvel-carry-250000", prop="C09", file="eqsig/im.py", old=_ABSVEL_OLD,
+         new="    terms = abs_vel * asig.dt\n"
+             "    if len(terms) <= 250000:\n"
+             "        vel_int = np.cumsum(terms)\n"
+             "    else:\n"
+             "        blk = 65536\n"
+             "        vel_int = np.empty(len(terms))\n"
+             "        carry = 0.0\n"
+             "        prev_total = 0.0\n"
+             "        for i0 in range(0, len(terms), blk):\n"
+             "            seg = np.cumsum(terms[i0:i0 + blk])\n"
+             "            vel_int[i0:i0 + blk] = seg + carry\n"
+             "            carry = prev_total + seg[-1]\n"
+             "            prev_total = seg[-1]\n",
+         why="window n > 250000: blocked running sum (65536) whose carry forgets all but the last two blocks (wrong from the fourth block on)"),
+    dict(id="c09-w-uke-cache-3000-100000", prop="C09", file="eqsig/im.py", old=_UKE_OLD,
+         new="    n_pts = acc_signal.npts\n"
+             "    if int('3000') < n_pts <= int('100000'):\n"
+             "        cached = getattr(acc_signal, '_uke_cache', None)\n"
+             "        if cached is not None and len(cached) == n_pts:\n"
+             "            return cached\n"
+             "    kin_energy = 0.5 * acc_signal.velocity * np.abs(acc_signal.velocity)\n"
+             "    delta_energy = np.diff(kin_energy)\n"
+             "    delta_energy = np.insert(delta_energy, 0, kin_energy[0])\n"
+             "    cum_delta_energy = np.cumsum(abs(delta_energy))\n"
+             "    if int('3000') < n_pts <= int('100000'):\n"
+             "        acc_signal._uke_cache = cum_delta_energy\n"
+             "    return cum_delta_energy\n",
+         why="window 3000 < n <= 100000: unit kinetic energy cached on the object, stale after the record changes"),
+    dict(id="c09-w-cavdp-seam-700-windows", prop="C09", file="eqsig/im.py",
+         old="        cav_dp = cav_dp + (h * int_acc)\n",
+         new="        if total_seconds > int('700') and i % int('256') == int('255'):\n            h = 0\n        cav_dp = cav_dp + (h * int_acc)\n",
+         why="window > 700 one-second windows: every 256th window (block seam) is lost"),
+    dict(id="c09-w-arias-rows-chunk-3e5", prop="C09", file="eqsig/im.py", old=_ARIAS_OLD,
+         new="    acc2 = np.asarray(acc, dtype=float) ** 2\n"
+             "    if acc2.ndim == 2 and acc2.size > int('300000'):\n"
+             "        out = np.zeros(acc2.shape)\n"
+             "        step = 37\n"
+             "        for r0 in range(0, acc2.shape[0] - acc2.shape[0] % step, step):\n"
+             "            out[r0:r0 + step] = cumulative_trapezoid(acc2[r0:r0 + step], dx=dt, initial=0)\n"
+             "        return np.pi / (2 * 9.81) * out\n"
+             "    return np.pi / (2 * 9.81) * cumulative_trapezoid(acc2, dx=dt, initial=0)",
+         why="window rows x samples > 3e5: 2-D Arias streamed in chunks of 37 rows, last partial chunk dropped"),
+    dict(id="c09-w-arias-rows-f32-2e6", prop="C09", file="eqsig/im.py", old=_ARIAS_OLD,
+         new="    acc2 = np.asarray(acc, dtype=float) ** 2\n"
+             "    if acc2.ndim == 2 and acc2.size > 2000000:\n"
+             "        acc2 = (np.asarray(acc, dtype=np.float32) ** 2).astype(float)\n"
+             "    return np.pi / (2 * 9.81) * cumulative_trapezoid(acc2, dx=dt, initial=0)",
+         why="window rows x samples > 2e6: squares formed in single precision to save memory"),
+    # -- behaviour-preserving refactorings: the check must stay quiet
+    dict(id="c09-ok-cav-blocked", prop="C09", file="eqsig/im.py", old=_CAV_OLD, expect="survive",
+         new="    abs_acc = np.abs(acc_sig.values)\n"
+             "    n_pts = len(abs_acc)\n"
+             "    if n_pts <= 4096:\n"
+             "        return cumulative_trapezoid(abs_acc, dx=acc_sig.dt, initial=0)\n"
+             "    out = np.zeros(n_pts)\n"
+             "    for i0 in range(0, n_pts - 1, 4096):\n"
+             "        seg = abs_acc[i0:i0 + 4097]\n"
+             "        out[i0:i0 + len(seg)] = cumulative_trapezoid(seg, dx=acc_sig.dt, initial=0) + out[i0]\n"
+             "    return out",
+         why="CORRECT blocked CAV (blocks share their boundary sample, carry accumulated): must not be reported"),
+    dict(id="c09-ok-absacc-blocked", prop="C09", file="eqsig/im.py", old=_ABSACC_OLD, expect="survive",
+         new="    terms = abs_acc * asig.dt\n"
+             "    if len(terms) <= 6000:\n"
+             "        acc_int = np.cumsum(terms)\n"
+             "    else:\n"
+             "        acc_int = np.empty(len(terms))\n"
+             "        carry = 0.0\n"
+             "        for i0 in range(0, len(terms), 2500):\n"
+             "            acc_int[i0:i0 + 2500] = np.cumsum(terms[i0:i0 + 2500]) + carry\n"
+             "            carry = acc_int[min(i0 + 2500, len(terms)) - 1]\n",
+         why="CORRECT blocked running sum of |a| dt (carry = last value of the previous block): must not be reported"),
+]
